@@ -35,8 +35,23 @@ RANDOM = {"quick": (1500, 40), "thorough": (20000, 60)}
 def plan(prop, tier):
     """list of (instance, depth, random walks, walk length)"""
     insts = INSTS.get(prop, [])
-    n, l = RANDOM[tier]
-    return [(i, dq if tier == "quick" else dt, n, l) for (i, dq, dt) in insts]
+    import fingerprint
+    drifted = fingerprint.drifted_files()
+    out = []
+    for (i, dq, dt) in insts:
+        # STRUCTURE DRIFT (tools/fingerprint.py, DESIGN §9.10): the source file an instance was modelled from differs from the one
+        # the model was validated against -> the thorough tier's budgets for that instance, whatever tier was asked for
+        esc = tier == "quick" and fingerprint.drifted_instance(i, drifted)
+        n, l = RANDOM["thorough" if esc else tier]
+        out.append((i, dt if (esc or tier != "quick") else dq, n, l))
+    return out
+
+
+def structure_drift(prop):
+    """(drifted source files, instances of this property's plan that are escalated because of them)"""
+    import fingerprint
+    drifted = fingerprint.drifted_files()
+    return drifted, [i for (i, _, _) in INSTS.get(prop, []) if fingerprint.drifted_instance(i, drifted)]
 
 
 def corpus(prop):
